@@ -76,6 +76,18 @@ def s_ident(eng, path, argv, callee):
     return path.deref(argv[0])
 
 
+_UF = {}
+
+
+def s_string_fn(eng, path, argv, callee):
+    # a string -> string library function the query does not interpret (to_lowercase, trim, ...): an uninterpreted
+    # function of its argument, so a derivation that passes its inputs through one is NOT equal to the specification
+    # term for all strings and the solver returns a model (replayed on the real function)
+    name = re.sub(r'[^A-Za-z_]', '_', callee.split('::')[-1])
+    f = _UF.setdefault(name, z3.Function('lib_' + name, S, S))
+    return SObj(f(sv(path, argv[0])))
+
+
 def s_default(eng, path, argv, callee):
     return SObj(z3.StringVal(''))
 
@@ -148,6 +160,7 @@ def run():
         (r'Argument::<.*>::new_display', s_new_display),
         (r'Arguments::<.*>::new::<', s_args_new),
         (r'^format$|fmt::format$|^must_use::|::as_bytes$|as Into<\[u8; 32\]>>::into$|as AsRef<\[u8\]>>::as_ref$', s_ident),
+        (r'<impl str>::(to_lowercase|to_uppercase|to_ascii_lowercase|to_ascii_uppercase|trim|trim_start|trim_end)$|String::(to_lowercase|to_uppercase)$', s_string_fn),
         (r'Sha256VarCore.* as Default>::default$|as Default>::default$', s_default),
         (r'as Digest>::update::<', s_update),
         (r'as Digest>::finalize$', s_finalize),
